@@ -327,6 +327,29 @@ def engine_a_check(pid, tier, jobs, required_reach, assumptions, level_note, out
         for key, digests in (r.get("observed") or {}).items():
             if len(digests) > 1:
                 vio.append({"harness": h, "label": "one-result-per-input", "class": "", "kind": "observe", "detail": "group %s has %d different results across schedules: %s" % (key, len(digests), list(digests)[:4]), "witness": None, "input_key": key})
+    # cross-solver diff: a sample of the assertion queries (full SMT-LIB scripts) is re-decided by z3 4.8.12 and cvc5 1.0
+    diff = {"queries": 0, "agree": 0, "disagree": [], "other_unknown": 0}
+    for r in res["results"]:
+        for a in r.get("assert_scripts") or []:
+            diff["queries"] += 1
+            verdicts = {"z3-new": a["verdict"]}
+            for name, cmd in (("z3-4.8.12", ["z3", "-in", "-T:30"]), ("cvc5", ["cvc5", "--lang=smt2", "--tlimit=30000"])):
+                script = a["script"] if name != "cvc5" else "(set-logic ALL)\n" + a["script"]
+                try:
+                    o = subprocess.run(cmd, input=script, capture_output=True, text=True, timeout=45).stdout.strip().splitlines()
+                    verdicts[name] = o[-1].strip() if o and "(error" not in " ".join(o) else "error"
+                except Exception:  # noqa
+                    verdicts[name] = "timeout"
+            decided = set(v for v in verdicts.values() if v in ("sat", "unsat"))
+            if len(decided) > 1:
+                diff["disagree"].append({"harness": r["harness"], "label": a["label"], "verdicts": verdicts})
+            elif all(v in ("sat", "unsat") for v in verdicts.values()):
+                diff["agree"] += 1
+            else:
+                diff["other_unknown"] += 1
+    for d in diff["disagree"]:
+        out.engine_errors.append("solvers disagree on an assertion query: %s" % json.dumps(d))
+    out.coverage["cross_solver_diff"] = diff
     # native confirmation, grouped per package
     validated = 0
     by_pkg = {}
@@ -592,8 +615,9 @@ def c18(tier):
 
 def T(pkg, harness, params=None, **kw):
     """One exploration job. Every job has a wall-clock budget (a run that hits it is reported INCONCLUSIVE, never as success)."""
+    quick = os.environ.get("VERIF_TIER_CUR", "quick") == "quick"
     j = {"pkg": pkg, "harness": harness, "workers": NCPU, "params": params or {},
-         "deadline_s": 240 if os.environ.get("VERIF_TIER_CUR", "quick") == "quick" else 3600}
+         "deadline_s": 240 if quick else 3600, "record_asserts": 6 if quick else 40}
     j.update(kw)
     return j
 
